@@ -1,15 +1,23 @@
 #!/bin/bash
-# run_mutant.sh <patch> <PROP> [extra check args]: apply patch to a scratch copy, run the quick check against it.
-# prints the tail of the output and "RESULT <patch> rc=<rc>"; rc=1 means the mutant was caught.
+# run_mutant.sh <patch> <PROP> [extra check args]: apply patch to a scratch copy of /repo (under /dev/shm), run the quick check against it,
+# then replay the first reported replay file against the mutant (must reproduce: rc 1) and against the pristine tree (must not: rc 0).
+# prints "RESULT <patch> rc=<rc> replay_on_mutant=<rc> replay_on_pristine=<rc>"; rc=1 means the mutant was caught.
 patch="$1"; prop="$2"; shift 2
 d=/dev/shm/verif-mut-$$-$(basename "$patch" .diff)
 /verif/selftest/scratch.sh "$d"
 if ! patch -s -p1 -d "$d" < "$patch"; then echo "RESULT $patch patch-failed"; rm -rf "$d"; exit 3; fi
 out=/dev/shm/verif-mut-out-$$
 mkdir -p "$out"
-VERIF_OUT_DIR="$out" VERIF_BUILD_DIR=/dev/shm/verif-mut-build /verif/check "$prop" --tier quick --repo "$d" "$@" > "$out/log" 2>&1
+export VERIF_OUT_DIR="$out" VERIF_BUILD_DIR=/dev/shm/verif-mut-build
+/verif/check "$prop" --tier quick --repo "$d" "$@" > "$out/log" 2>&1
 rc=$?
-grep -E "^(violation|VIOLATION|KNOWN|HARNESS|C[0-9]+ )" "$out/log" | cut -c1-300 | head -30
-echo "RESULT $(basename $patch) rc=$rc"
+grep -E "^(violation|VIOLATION|KNOWN|HARNESS|note|C[0-9]+ )" "$out/log" | cut -c1-300 | head -30
+rm=-; rp=-
+rf=$(grep -E "^VIOLATION" "$out/log" | grep -v crash | head -1 | sed 's/.*replay=//')
+if [ -n "$rf" ] && [ "$NOREPLAY" = "" ]; then
+  /verif/check "$prop" --replay "$rf" --repo "$d" > "$out/replay_mut.log" 2>&1; rm=$?
+  /verif/check "$prop" --replay "$rf" --repo /repo > "$out/replay_pri.log" 2>&1; rp=$?
+fi
+echo "RESULT $(basename $patch) rc=$rc replay_on_mutant=$rm replay_on_pristine=$rp"
 rm -rf "$d" "$out"
 exit 0
